@@ -7,6 +7,7 @@
 //! A scenario is `kind:layout:plan:nkeys:ops:mix[:opt=val,...]`.
 
 mod env;
+mod layoutcmd;
 mod mapdrv;
 mod scen;
 mod setdrv;
@@ -60,6 +61,7 @@ fn main() {
     let code = match args[1].as_str() {
         "drive" => scen::drive(&out, seed, &rest),
         "replay" => scen::replay(&out, seed, &rest),
+        "layout" => layoutcmd::run(&out, seed, &rest),
         "width" => {
             println!("{}", hashbrown::verif::GROUP_WIDTH);
             0
